@@ -322,7 +322,7 @@ const LONG_PROBES: &[&str] = &[
 
 pub fn run(ctx: &Ctx) -> i32 {
     let mut total = Report::new();
-    let cfg = util::ForkCfg { threads: ctx.threads, mem_bytes: 4 << 30, case_timeout_s: 120, died_signature: "C17/abort".into() };
+    let cfg = util::ForkCfg { threads: ctx.threads, mem_bytes: 4 << 30, case_timeout_s: 120, died_signature: "C17/abort".into(), resource_is_violation: false };
     let maxlen = if ctx.quick() { 6 } else { 8 };
     let r = util::par_forked(&cfg, 64, |sh| short_sweep(sh, maxlen));
     total.extra.insert("short_arrays".into(), json!(r.states));
